@@ -136,6 +136,10 @@ func calleeShort(cl *ssa.Call) string {
 func (c *Ctx) domFacts(f *ssa.Function, blk *ssa.BasicBlock) map[string]bool {
 	out := map[string]bool{}
 	for _, bf := range branchFacts(f) {
+		if _, _, isSet := constSetLookup(c.Prog, bf.A); isSet {
+			// the raw lookup in a constant set: what it says about the key is carried by the derived equalities
+			continue
+		}
 		curEnv = bf.A.Env
 		if bf.Derived && c.opaqueHelper(bf.Via) {
 			continue
@@ -627,6 +631,12 @@ func (c *Ctx) comparatorShape(lf *ssa.Function) (primary string, tie bool) {
 		if ph, ok := r.Results[0].(*ssa.Phi); ok {
 			vals = ph.Edges
 		}
+		// cmp.Or(primary, tieBreak...): the first non-zero comparison decides; each operand is a comparison of its own
+		for i := 0; i < len(vals); i++ {
+			if cl, ok := strip(vals[i]).(*ssa.Call); ok && strings.HasPrefix(calleeFullName(&cl.Call), "cmp.Or") {
+				vals = append(vals, variadicElems(cl.Call.Args)...)
+			}
+		}
 		for _, v := range vals {
 			v = strip(v)
 			if cl, ok := v.(*ssa.Call); ok {
@@ -1031,7 +1041,14 @@ func (c *Ctx) acceptsViaTableFn(vt *ssa.Function, r *ssa.Return, tableFn *ssa.Fu
 			return false
 		}
 		h := calleeOf(&cl.Call)
-		if h == nil || !c.InModule(h) || h.Blocks == nil {
+		if h == nil {
+			return false
+		}
+		stdContains := false
+		if o := h.Origin(); o != nil && o.Pkg != nil && o.Pkg.Pkg.Path() == "slices" && o.Name() == "Contains" {
+			stdContains = true
+		}
+		if !stdContains && (!c.InModule(h) || h.Blocks == nil) {
 			return false
 		}
 		// arguments: the row of `from`, and `to`
@@ -1043,8 +1060,11 @@ func (c *Ctx) acceptsViaTableFn(vt *ssa.Function, r *ssa.Return, tableFn *ssa.Fu
 			return false
 		}
 		// the helper is a membership test: it answers true only on an equality of an element with its second parameter
-		okEq := false
+		okEq := stdContains
 		for _, hr := range returnsOf(h) {
+			if stdContains {
+				break
+			}
 			if b, isC := constBool(returnedValue(hr, 0)); !isC || !b {
 				continue
 			}
@@ -1308,17 +1328,54 @@ func ruleVD4(c *Ctx) {
 		// cleared-claim set: constants on equality edges leading to the phi edge that sets newClaimedBy = ""
 		vci := c.F.Anchors["validateClaimInvariant"]
 		for _, call := range callsTo(bse, vci) {
-			ph, ok := call.Common().Args[1].(*ssa.Phi)
-			if !ok {
-				continue
+			// the places where the claimant handed to the invariant is the empty constant: a phi edge in the builder,
+			// or a `return ""` of the private helper that computes it
+			type emptySite struct {
+				f      *ssa.Function
+				intoBy func(e edge) bool
+				bind   env
 			}
-			for i, e := range ph.Edges {
-				if s, isC := constString(e); !isC || s != "" {
-					continue
+			var sites []emptySite
+			var collect func(f *ssa.Function, v ssa.Value, bind env, d int)
+			collect = func(f *ssa.Function, v ssa.Value, bind env, d int) {
+				switch x := v.(type) {
+				case *ssa.Phi:
+					for i, e := range x.Edges {
+						if s, isC := constString(e); !isC || s != "" {
+							continue
+						}
+						pred, blk := x.Block().Preds[i], x.Block()
+						sites = append(sites, emptySite{f, func(e edge) bool { return e.To() == pred || e.To() == blk && e.From == pred }, bind})
+					}
+				case *ssa.Call:
+					g := calleeOf(x.Common())
+					if g == nil || !c.InModule(g) || g.Blocks == nil || d > 1 || g.Signature.Results().Len() != 1 {
+						return
+					}
+					inner := env{}
+					for i, prm := range g.Params {
+						if i < len(x.Common().Args) {
+							inner[prm] = resolveEnv(x.Common().Args[i], bind)
+						}
+					}
+					for _, blk := range g.Blocks {
+						ret, ok := blk.Instrs[len(blk.Instrs)-1].(*ssa.Return)
+						if !ok || len(ret.Results) != 1 {
+							continue
+						}
+						if s, isC := constString(ret.Results[0]); isC && s == "" {
+							b := blk
+							sites = append(sites, emptySite{g, func(e edge) bool { return e.To() == b }, inner})
+						} else {
+							collect(g, ret.Results[0], inner, d+1)
+						}
+					}
 				}
-				pred := ph.Block().Preds[i]
-				for _, bf := range branchFacts(bse) {
-					if !(bf.E.To() == pred || bf.E.To() == ph.Block() && bf.E.From == pred) {
+			}
+			collect(bse, call.Common().Args[1], env{}, 0)
+			for _, st := range sites {
+				for _, bf := range branchFacts(st.f) {
+					if !st.intoBy(bf.E) {
 						continue
 					}
 					atoms := []factAtom{{bf.A, bf.Holds}}
@@ -1327,7 +1384,7 @@ func ruleVD4(c *Ctx) {
 					}
 					for _, fa := range atoms {
 						if fa.A.Kind == "const" && fa.Holds && constStr(fa.A.C) != "" {
-							if k, _ := lookupKeyOf(resolveEnv(fa.A.X, fa.A.Env)); k == "state" {
+							if k, _ := lookupKeyOf(resolveEnv(resolveEnv(fa.A.X, fa.A.Env), st.bind)); k == "state" {
 								clearedInBuilder[constStr(fa.A.C)] = true
 							}
 						}
